@@ -13,7 +13,8 @@ var (
 	changes           = `^([\d-]+)[\t\s]+([\d-]+)[\t\s]+(.*)`
 	complexMoveRegStr = `(.*)\{(.*)\s=>\s(.*)\}(.*)`
 	basicMoveRegStr   = `(.*)\s=>\s(.*)`
-	changeModel       = `^\s(\w{1,6})\s(mode 100(\d){3})?\s?(.*)(\s\(\d{2}%\))?`
+	// a --summary line: create/delete mode, mode change, rename, copy, rewrite
+	changeModel = `^\s(\w{1,7})\s(mode 100(\d){3})?\s?(.*)(\s\(\d{2}%\))?`
 
 	headerReg      = regexp.MustCompile(header)
 	changesReg     = regexp.MustCompile(changes)
